@@ -395,6 +395,21 @@ fn respell(rng: &mut Rng, frag: &str) -> String {
     out
 }
 
+/// A request built from the crate's own vocabulary: `Trait(word)`, `Trait(word = value)`,
+/// `Trait(word(value))` with `word` one of the identifier-like strings found in educe's source. Most
+/// of these are rejected — but a parameter a change has just introduced is reached without the
+/// generator knowing its name in advance.
+fn vocab_param(rng: &mut Rng, tr: &str) -> Option<String> {
+    let w = template_lower(rng)?;
+    let val = *rng.pick(&["true", "false", "1", "\"text\"", "Name", "a::b", "-1"]);
+    Some(match rng.below(4) {
+        0 => format!("{tr}({w})"),
+        1 => format!("{tr}({w} = {val})"),
+        2 => format!("{tr}({w}({val}))"),
+        _ => format!("{tr}({w} = {val}, {w}2)"),
+    })
+}
+
 fn gen_field_attrs(rng: &mut Rng, traits: &[&str], idx: usize, rich: bool, named: bool, default_ok: bool) -> Vec<String> {
     let mut out = vec![];
     let has = |t: &str| traits.contains(&t);
@@ -407,6 +422,12 @@ fn gen_field_attrs(rng: &mut Rng, traits: &[&str], idx: usize, rich: bool, named
             "PartialOrd" if has("Ord") && !rng.chance(1, 10) => continue,
             "Default" if !default_ok => continue,
             _ => {},
+        }
+        if rng.chance(1, 250) {
+            if let Some(a) = vocab_param(rng, tr) {
+                out.push(a);
+                continue;
+            }
         }
         if let Some(mut a) = field_attr_for(rng, tr, idx, named) {
             // two parameters in one request: any pair the parser accepts for this trait
@@ -697,6 +718,15 @@ fn build_model(rng: &mut Rng, name: &str, opts: &GenOpts) -> Model {
         if bound_ok {
             if let Some(b) = gen_bound(rng, &g, tr) {
                 params.push(b);
+            }
+        }
+        if rng.chance(1, 80) {
+            if let Some(w) = template_lower(rng) {
+                params.push(match rng.below(3) {
+                    0 => w.to_string(),
+                    1 => format!("{w} = {}", rng.pick(&["true", "false", "1", "\"text\"", "Name"])),
+                    _ => format!("{w}(Name)"),
+                });
             }
         }
         if params.is_empty() {
@@ -1036,6 +1066,11 @@ fn inject(rng: &mut Rng, m: &mut Model, class: &str) {
             for _ in 0..4 {
                 let t = *rng.pick(&TRAITS);
                 names.push(typo(rng, t));
+            }
+            for _ in 0..2 {
+                if let Some(u) = template_upper(rng) {
+                    names.push(u.to_string());
+                }
             }
             rng.shuffle(&mut names);
             for n in names.into_iter().take(k) {
